@@ -72,7 +72,9 @@ def gen_form(rng, V, kind=None):
     if k == 'cadr':
         return k, f'(cadr (list {a} 2 {V}))', f'(first (rest (list {a} 2 {V})))'
     # operands of the temporal forms: signals, expressions, and the things that are not stored samples (a virtual signal, TS, INDEX)
-    sig = rng.choice(['top.clk', 'top.d_valid', '(+ top.clk 0)', 'top.cnt', '(slice top.cnt 0)', 'vclk9', 'TS', 'INDEX', 'vclk9'])
+    # ... and operands that move between 0 and a value other than 1 (the forms compare with 0 and 1, not with "zero / not zero")
+    sig = rng.choice(['top.clk', 'top.d_valid', '(+ top.clk 0)', 'top.cnt', '(slice top.cnt 0)', 'vclk9', 'TS', 'INDEX', 'vclk9',
+                      '(* 2 top.clk)', '(+ top.clk top.clk top.clk)', '(* 7 top.d_valid)', '(- 1 top.clk)'])
     if k == 'rising':
         return k, f'(rising {sig})', f'(&& (= {sig} 0) (= (reval {sig} 1) 1))'
     if k == 'falling':
@@ -251,6 +253,14 @@ class C15(framework.PropertyCheck):
                 name = h.value if isinstance(h, Operator) else h.name if isinstance(h, Symbol) else None
                 if name == 'list':
                     return [ev(x, i) for x in e[1:]]
+                if name in ('+', '*', '-') and len(e) >= 3:
+                    vals = [ev(x, i) for x in e[1:]]
+                    if not all(isinstance(v, int) and not isinstance(v, bool) for v in vals):
+                        raise Outside()
+                    acc = vals[0]
+                    for v in vals[1:]:
+                        acc = acc + v if name == '+' else acc * v if name == '*' else acc - v
+                    return acc
                 if name == 'reval' and isinstance(e[2], int):
                     return ev(e[1], i + e[2]) if 0 <= i + e[2] < n else False
                 if name in ('rising', 'falling', 'stable', 'unstable') and len(e) == 2:
